@@ -2,6 +2,7 @@ import Gonuts.Lemmas.MintConc
 import Gonuts.Lemmas.MintSeq
 import Gonuts.Props.C01
 import Gonuts.Lemmas.SwapCrash
+import Gonuts.Lemmas.MintCrash
 /-!
   C07 — mint crash consistency.
 
@@ -100,6 +101,34 @@ theorem swap_never_signs_without_spending (cx : Cx) (ps : List Proof) (outs : Li
     simp only [ysOf, List.map_append, List.mem_append, List.mem_map]
     right
     exact ⟨p.row, ⟨p, hp, rfl⟩, rfl⟩
+
+/-- A killed or faulted `MintTokens` (any request, world, interruption point, armed fault) leaves one of exactly three
+    states: nothing; only the STATE of one mint quote changed; that quote ISSUED and the signatures stored.  No other table
+    is touched.  (`Lemmas/WriteShape.lean`: a Hoare logic over the writes of a program; `Lemmas/MintCrash.lean`: the write
+    automaton of MintTokens, its soundness for the storage semantics, and the walk over the program's binds.) -/
+theorem mint_interrupted_states (cx : Cx) (qid : Int) (outs : List BMsg) (sig : QSig) (n : Nat) (w : World) :
+    let db' := ((mintTokens cx qid outs sig).run.runN n w).1.db
+    db' = w.db ∨
+    (∃ id s, db' = { w.db with mintQ := updMintQ w.db.mintQ id s }) ∨
+    (∃ id sigs t2, insertSigs w.db.sigs sigs = some t2 ∧
+      db' = { w.db with mintQ := updMintQ w.db.mintQ id .issued, sigs := t2 }) :=
+  mint_crash_states cx qid outs sig n w
+
+/-- Safety at every interruption point: `MintTokens` never stores a signature unless, in the same tables, the quote is
+    ISSUED — so a restart can never issue for that payment a second time (`C03.issued_refuses`). -/
+theorem mint_never_signs_unless_issued (cx : Cx) (qid : Int) (outs : List BMsg) (sig : QSig) (n : Nat) (w : World)
+    (hs : ((mintTokens cx qid outs sig).run.runN n w).1.db.sigs ≠ w.db.sigs) :
+    ∃ id, ((mintTokens cx qid outs sig).run.runN n w).1.db.mintQ = updMintQ w.db.mintQ id .issued := by
+  rcases mint_crash_states cx qid outs sig n w with h | ⟨id, s, h⟩ | ⟨id, sigs, t2, _, h⟩
+  · rw [h] at hs; exact absurd rfl hs
+  · rw [h] at hs; exact absurd rfl hs
+  · exact ⟨id, by rw [h]⟩
+
+/-- … and it never touches the spent, pending, melt-quote or keyset tables, whatever happens -/
+theorem mint_touches_only_quote_and_signatures (cx : Cx) (qid : Int) (outs : List BMsg) (sig : QSig) (n : Nat) (w : World) :
+    let db' := ((mintTokens cx qid outs sig).run.runN n w).1.db
+    db'.spent = w.db.spent ∧ db'.pending = w.db.pending ∧ db'.meltQ = w.db.meltQ ∧ db'.keysets = w.db.keysets := by
+  rcases mint_crash_states cx qid outs sig n w with h | ⟨id, s, h⟩ | ⟨id, sigs, t2, _, h⟩ <;> simp [h]
 
 /-! ## Canonical instances: one proof of 8 (secret 7), one output (B_ 1), one quote of 8 -/
 
